@@ -162,6 +162,88 @@ example : (do
     entryInfo t "f" (.override "usize" { align := some 2 })) = some ⟨"f", "usize", 4, 2, Truc.UNSET, false⟩ ∧
     entryInfo [] "f" (.typed "usize") = none := by decide +kernel
 
+/-! ### two resolvers that give the same sizes and alignments give the same layout -/
+
+/-- a call on the native builder -/
+inductive Call where
+  | add (name : String) (e : EntryPoint)
+  | remove (id : Nat)
+  | close (st : Truc.Strategy)
+
+/-- the request the generic builder receives; `none` = the resolver refuses the type -/
+def callReq (t : Table) : Call → Option Truc.Req
+  | .add name e => (entryInfo t name e).map Truc.Req.add
+  | .remove id => some (.remove id)
+  | .close st => some (.close st)
+
+def callReqs (t : Table) : List Call → Option (List Truc.Req)
+  | [] => some []
+  | c :: cs => match callReq t c, callReqs t cs with
+    | some r, some rs => some (r :: rs)
+    | _, _ => none
+
+/-- the same calls made under two resolvers (tables) whose answers agree on size and alignment — whatever else differs, names
+    of types and uninit flags included — produce the same variants and the same offsets: the layout is a function of the sizes
+    and alignments the resolver supplies, and of nothing else -/
+theorem C18_same_answers_same_layout (t t' : Table) (calls : List Call) (reqs reqs' : List Truc.Req)
+    (h : callReqs t calls = some reqs) (h' : callReqs t' calls = some reqs')
+    (hagree : ∀ name e i i', entryInfo t name e = some i → entryInfo t' name e = some i' → i.size = i'.size ∧ i.align = i'.align)
+    (ha : Truc.Accepted Truc.BState.init reqs) (ha' : Truc.Accepted Truc.BState.init reqs') :
+    (Truc.run reqs).variants = (Truc.run reqs').variants ∧
+    ∀ id, Truc.off (Truc.run reqs).defs id = Truc.off (Truc.run reqs').defs id := by
+  have hg : Truc.SameGeo reqs reqs' := by
+    clear ha ha'
+    induction calls generalizing reqs reqs' with
+    | nil =>
+      simp only [callReqs, Option.some.injEq] at h h'
+      subst h; subst h'; trivial
+    | cons c cs ih =>
+      simp only [callReqs] at h h'
+      cases hc : callReq t c with
+      | none => rw [hc] at h; simp at h
+      | some r =>
+        cases hc' : callReq t' c with
+        | none => rw [hc'] at h'; simp at h'
+        | some r' =>
+          cases hcs : callReqs t cs with
+          | none => rw [hc, hcs] at h; simp at h
+          | some rs =>
+            cases hcs' : callReqs t' cs with
+            | none => rw [hc', hcs'] at h'; simp at h'
+            | some rs' =>
+              rw [hc, hcs] at h; rw [hc', hcs'] at h'
+              simp only [Option.some.injEq] at h h'
+              subst h; subst h'
+              refine ⟨?_, ih rs rs' hcs hcs'⟩
+              cases c with
+              | add name e =>
+                simp only [callReq] at hc hc'
+                cases hi : entryInfo t name e with
+                | none => rw [hi] at hc; simp at hc
+                | some i =>
+                  cases hi' : entryInfo t' name e with
+                  | none => rw [hi'] at hc'; simp at hc'
+                  | some i' =>
+                    rw [hi] at hc; rw [hi'] at hc'
+                    simp only [Option.map_some, Option.some.injEq] at hc hc'
+                    subst hc; subst hc'
+                    exact hagree name e i i' hi hi'
+              | remove id =>
+                simp only [callReq, Option.some.injEq] at hc hc'
+                subst hc; subst hc'; rfl
+              | close st =>
+                simp only [callReq, Option.some.injEq] at hc hc'
+                subst hc; subst hc'; rfl
+  have := Truc.C18_layout_factor reqs reqs' hg ha ha'
+  exact ⟨this.1, fun id => (this.2.2 id).1⟩
+
+/-- non-vacuity: two tables that name and flag `u8` differently but agree on 1/1 -/
+example : callReqs [("u8", ⟨"u8", 1, 1, true⟩)] [.add "a" (.typed "u8"), .close .simple] =
+      some [.add ⟨"a", "u8", 1, 1, Truc.UNSET, false⟩, .close .simple] ∧
+    callReqs [("u8", ⟨"byte", 1, 1, false⟩)] [.add "a" (.typed "u8"), .close .simple] =
+      some [.add ⟨"a", "byte", 1, 1, Truc.UNSET, false⟩, .close .simple] := by
+  constructor <;> rfl
+
 /-- a table answers exactly what was registered … -/
 theorem C18_table_registered (t t' : Table) (key : String) (e : Entry) (h : register t key e = some t') :
     lookupKey t' key = some e := by
